@@ -2,6 +2,11 @@
 package main
 
 import (
+	"bytes"
+	"go/ast"
+	"go/parser"
+	"go/printer"
+	"go/token"
 	"encoding/json"
 	"flag"
 	"fmt"
@@ -586,6 +591,10 @@ func nativeReplay(files []harnessFile, pkgDir string, replayFiles []string) []st
 		ov["Replace"][f.overlay] = f.src
 	}
 	ov["Replace"][filepath.Join(*repoDir, pkgDir, "zz_verif_replay_test.go")] = testFile
+	// packages that call package os directly are compiled for replay against the counting shim
+	for _, d := range osShimDirs {
+		shimOS(filepath.Join(*repoDir, d), tmp, ov["Replace"])
+	}
 	ob, _ := json.Marshal(ov)
 	ovFile := filepath.Join(tmp, "overlay.json")
 	os.WriteFile(ovFile, ob, 0o644)
@@ -685,4 +694,53 @@ func replayMain(path string) int {
 		return 1
 	}
 	return 0
+}
+
+// osShimDirs: repository packages whose direct use of package os is redirected, for native replay
+// only, to the counting shim in verifrt (vos.go). The rewrite is regenerated from the current
+// source on every replay build: every selector os.X becomes vos.X.
+var osShimDirs = []string{"internal/snapshot"}
+
+func shimOS(dir, tmp string, replace map[string]string) {
+	ents, err := os.ReadDir(dir)
+	if err != nil {
+		return
+	}
+	for _, en := range ents {
+		if en.IsDir() || !strings.HasSuffix(en.Name(), ".go") || strings.HasSuffix(en.Name(), "_test.go") || strings.HasPrefix(en.Name(), "zz_verif_") {
+			continue
+		}
+		p := filepath.Join(dir, en.Name())
+		fset := token.NewFileSet()
+		f, err := parser.ParseFile(fset, p, nil, parser.ParseComments)
+		if err != nil {
+			continue
+		}
+		uses := false
+		for _, im := range f.Imports {
+			if im.Path.Value == `"os"` && im.Name == nil {
+				im.Path.Value = `"github.com/echovault/sugardb/internal/verifrt"`
+				im.Name = ast.NewIdent("vos")
+				uses = true
+			}
+		}
+		if !uses {
+			continue
+		}
+		ast.Inspect(f, func(n ast.Node) bool {
+			if se, ok := n.(*ast.SelectorExpr); ok {
+				if id, ok := se.X.(*ast.Ident); ok && id.Name == "os" && id.Obj == nil {
+					id.Name = "vos"
+				}
+			}
+			return true
+		})
+		var buf bytes.Buffer
+		if err := printer.Fprint(&buf, fset, f); err != nil {
+			continue
+		}
+		out := filepath.Join(tmp, "shim_"+strings.ReplaceAll(strings.TrimPrefix(p, "/"), "/", "_"))
+		os.WriteFile(out, buf.Bytes(), 0o644)
+		replace[p] = out
+	}
 }
